@@ -17,7 +17,8 @@ VARIABLE mon
 
 MaxRuns == 6
 
-NoRunMon == [started |-> FALSE, stopped |-> 0, status |-> "", engineClosed |-> FALSE, descs |-> {},
+NoRunMon == [span |-> 0, spanEnds |-> 0, spanStatus |-> "",
+             started |-> FALSE, stopped |-> 0, status |-> "", engineClosed |-> FALSE, descs |-> {},
              dmask |-> [s \in Streams |-> "none"], stale |-> {},
              maxseq |-> [s \in Streams |-> 0], rewAtLast |-> [s \in Streams |-> 0], nev |-> [s \in Streams |-> 99],
              intrWant |-> 0]
@@ -60,6 +61,8 @@ MonInitVal ==
     cfgVer |-> [d \in Devices |-> 1],
     suspStopDue |-> {},          \* moved devices that must be stopped by the suspension that just started
     recIntr |-> FALSE,
+    pendingSpan |-> 0,           \* C42: span started by the open_run in progress
+    tracing |-> FALSE,           \* C42: span events are being recorded
     expOutcome |-> "ok",         \* C03: how the uninterrupted execution of the same plan ends
     c04off |-> FALSE,            \* a checkpoint-like command failed: replay expectations are not tracked for this call
     expData |-> {},              \* C03: expected <<ord, stream, seq, digest>> of the uninterrupted execution
@@ -104,7 +107,7 @@ UpdDoc(m, e) ==
   IF e[5] # "" THEN Viol(m, IF e[5] = "dupuid" THEN "C01:duplicate-uid" ELSE "C01:schema-invalid") ELSE
   IF name = "start" THEN
      IF ord # m.nruns + 1 \/ ord > MaxRuns THEN Viol(m, "C01:start-order")
-     ELSE LET m1 == [m EXCEPT !.nruns = ord, !.runs[ord] = [NoRunMon EXCEPT !.started = TRUE]]
+     ELSE LET m1 == [m EXCEPT !.nruns = ord, !.runs[ord] = [NoRunMon EXCEPT !.started = TRUE, !.span = m.pendingSpan], !.pendingSpan = 0]
               m2 == ViolIf(m1, m.dupOpen, "C14:duplicate-open-accepted")
           IN IF m.pendingOpen \in RunKeys THEN [m2 EXCEPT !.keyOrd[m.pendingOpen] = ord, !.pendingOpen = "none"] ELSE m2
   ELSE IF ord < 1 \/ ord > m.nruns THEN Viol(m, "C01:no-run-start")
@@ -273,6 +276,15 @@ UpdDat(m, e) ==
   ELSE LET m1 == ViolIf(m, m.expectEvent \notin {"none", "no"} /\ mask # m.expectEvent, "C15:event-keys-differ-from-bundle")
            m2 == ViolIf(m1, m.runs[ord].dmask[stream] # "none" /\ mask # m.runs[ord].dmask[stream], "C15:event-keys-differ-from-descriptor")
        IN [m2 EXCEPT !.gotData = {x \in @ : ~(x[1] = ord /\ x[2] = stream /\ x[3] = seq)} \cup {<<ord, stream, seq, dig>>}]
+\* C42: span events ['span', 'start'|'end', exit_status, '', '', sid, 0]
+NormStatus(x) == IF x = "aborted" THEN "abort" ELSE x
+UpdSpan(m, e) ==
+  LET op == e[2] status == e[3] sid == e[6] IN
+  IF op = "start" THEN [m EXCEPT !.pendingSpan = sid, !.tracing = TRUE]
+  ELSE LET os == {o \in 1..m.nruns : m.runs[o].span = sid} IN
+       IF os = {} THEN m
+       ELSE LET o == CHOOSE x \in os : TRUE IN
+            [m EXCEPT !.runs[o].spanEnds = @ + 1, !.runs[o].spanStatus = NormStatus(status)]
 UpdExp(m, e) == IF e[2] = "#outcome" THEN [m EXCEPT !.expOutcome = e[3]] ELSE [m EXCEPT !.expData = @ \cup {<<e[7], e[2], e[6], e[3]>>}]
 
 UpdState(m, e) ==
@@ -309,8 +321,18 @@ UpdRet(m, e, s2) ==
                                   \E y \in m.gotData : y \notin m.expData, IF \E y \in m.gotData : \A x \in m.expData : <<y[1], y[2], y[3]>> # <<x[1], x[2], x[3]>>
                                                                           THEN "C03:extra-data-point" ELSE "C03:data-differs")
              ELSE mm0
+      \* C42: every run opened in this call has one span, ended exactly once, with the run's own exit status
+      rs == (m.callRuns + 1)..m.nruns
+      mmS == IF st = "idle" /\ m.tracing THEN
+                ViolIf(ViolIf(ViolIf(ViolIf(mm1, \E o \in rs : m.runs[o].span = 0, "C42:run-without-span"),
+                                     \E o \in rs : m.runs[o].span # 0 /\ m.runs[o].spanEnds = 0, "C42:span-not-ended"),
+                              \E o \in rs : m.runs[o].spanEnds > 1, "C42:span-ended-twice"),
+                       \E o \in rs : m.runs[o].spanEnds = 1 /\ m.runs[o].stopped = 1 /\ m.runs[o].spanStatus # m.runs[o].status
+                                            \* (a plan that closes its run itself after abort/stop/halt chooses the status: not compared)
+                                            /\ (m.runs[o].engineClosed \/ (m.term = {} /\ m.termLate = {})), "C42:span-status-differs")
+             ELSE mm1
       \* C11: the caller stays blocked while a suspension is in effect
-      mm2 == ViolIf(mm1, m.suspWait /\ m.term = {} /\ m.termLate = {} /\ ~m.failedPause /\ outcome \in {"ok", "interrupted"} /\ st # "paused", "C11:returned-during-suspension")
+      mm2 == ViolIf(mmS, m.suspWait /\ m.term = {} /\ m.termLate = {} /\ ~m.failedPause /\ outcome \in {"ok", "interrupted"} /\ st # "paused", "C11:returned-during-suspension")
       \* C12: a failed status must not be lost; an unhandled plan/device error is what the call raises
       mm3 == ViolIf(mm2, m.failPending /\ outcome = "ok", "C12:status-failure-lost")
       m0 == ViolIf(mm3, m.planRaised \in {"raise:DevErr", "raise:PlanErr", "raise:FailedStatus", "raise:IMS"} /\ st = "idle"
@@ -400,6 +422,7 @@ Upd(m, e, s, s2) ==
     [] k = "cfg" -> UpdCfg(m, e)
     [] k = "dat" -> UpdDat(m, e)
     [] k = "exp" -> UpdExp(m, e)
+    [] k = "span" -> UpdSpan(m, e)
     [] k = "gen" -> UpdGen(m, e)
     [] OTHER -> m
 
@@ -432,6 +455,7 @@ C14Tags == {"C14:document-in-wrong-run", "C14:duplicate-open-accepted"}
 C15Tags == {"C15:event-from-empty-bundle", "C15:event-missing", "C15:colliding-read-accepted", "C15:checkpoint-inside-bundle-accepted",
             "C15:configure-inside-bundle-accepted", "C15:event-keys-differ-from-bundle", "C15:event-keys-differ-from-descriptor"}
 C16Tags == {"C16:stale-configuration", "C16:event-references-old-descriptor"}
+C42Tags == {"C42:run-without-span", "C42:span-not-ended", "C42:span-ended-twice", "C42:span-status-differs"}
 C40Tags == {"C40:count", "C40:stream-when-disabled", "C05:duplicate-seq:interruptions", "C05:num_events:interruptions", "C05:gap:interruptions"}
 C41Tags == {"C41:update-while-paused", "C41:update-while-suspended", "C05:duplicate-seq:monitor", "C05:num_events:monitor"}
 
